@@ -7,11 +7,19 @@ import OsacaVerif.Props.C03
 /-
   C04 — Critical path is the longest latency-weighted dependency chain.
 
-  The pinned code does NOT satisfy the property (known finding D7, see DESIGN.md §6):
-  `get_critical_path` picks the path by edge weights only and overwrites the per-line CP latency of an
-  instruction that is entered through its own load node.  The model `LCD.cpCandidates` mirrors the
-  code as it is; what is proved is the negative result on a concrete witness (replayed on the real
-  code by the check) and the parts that do hold.
+  The pinned code is now REPAIRED (`fix: critical path under-reports …`): `get_critical_path` is one
+  pass over the lines (`LCD.cpTable` / `LCD.cpStep` / `LCD.cpTotal`, marking in `Model/CpMark.lean`:
+  `LCD.cpPath`, `LCD.cpMarks`).  For it the full property is proved, for kernels of any length
+  (second half of this file): `cpTotal_eq_longestChain`, `cp_is_longest`, `cp_ge_every_instr`,
+  `cp_ge_every_chain`, `cp_lines_form_chain`, `cp_lines_sum`, `cp_marked_chain_is_longest`.
+
+  The theorems about `LCD.cpCandidates` / `LCD.cpReport` (first half) model the code as it was BEFORE
+  the repair (known finding D7, DESIGN.md §6: the path was picked by edge weights only and the
+  per-line CP latency of an instruction entered through its own load node was overwritten).  They
+  are kept as the witness for the unrepaired variant: `cp_underreports` (the old total is strictly
+  too small on a concrete kernel, replayed on the real code by the check) and `cp_never_overreports`
+  (the defect was one-sided).  `Spec.longestChain` is the oracle of both halves
+  (`longestChain_is_max`: it IS the maximum chain length).
 -/
 namespace OsacaVerif.Props.C04
 open OsacaVerif OsacaVerif.DG OsacaVerif.LCD OsacaVerif.Spec
@@ -29,8 +37,9 @@ def witness : List Ins :=
       [r "xmm0"] [] 7 (some 3) true,
     mkIns 2 [r "xmm0"] [.mem ⟨some ⟨[], Text.ofString "rax", false, false⟩, none, 1, none, false, false, [1]⟩] [] 0 (some 0) false ]
 
-/-- **the full property is false of the pinned code** (`cp_underreports`): the reported total of the
-    witness kernel is 3, although the multiply alone takes 7 cycles. -/
+/-- **the full property is false of the code before the repair** (`cp_underreports`): the total the
+    unrepaired variant reports for the witness kernel is 3, although the multiply alone takes 7 cycles
+    (the repaired code reports 7, see the examples after `cpTotal_eq_longestChain`). -/
 theorem cp_underreports :
     (cpCandidates witness (create .x86 false {} witness)).map (fun c => (c.map (·.2)).sum) = [3] ∧
     longestChain [⟨1, 7, 4⟩, ⟨2, 0, 0⟩] [⟨1, 2, 3⟩] = 7 := by
@@ -99,7 +108,7 @@ example : (Chain.mk 1 [⟨1, 2, 3⟩]).Valid [⟨1, 7, 4⟩, ⟨2, 0, 0⟩] [⟨
     (Chain.mk 1 [⟨1, 2, 3⟩]).len [⟨1, 7, 4⟩, ⟨2, 0, 0⟩] = 7 ∧
     longestChain [⟨1, 7, 4⟩, ⟨2, 0, 0⟩] [⟨1, 2, 3⟩] = 7 := by decide +kernel
 
-/-! ### what the pinned `get_critical_path` reports, against the chains of the property
+/-! ### what the UNREPAIRED `get_critical_path` reports, against the chains of the property
     (`Lemmas/CritPath.lean`)
 
   `isPath es p`: consecutive nodes of `p` are linked by an edge of `es` (a genuine path);
@@ -277,7 +286,7 @@ theorem cpCandidates_le_longest (k : List Ins) (hk : WFKernel k) (hst : NonnegSt
     · exact hin e he
 
 /-- **`cp_never_overreports`**: on the dependency graph OSACA builds (`create`), for every kernel with
-    increasing line numbers and `latWoLoad ≤ lat`, every possible result of the pinned
+    increasing line numbers and `latWoLoad ≤ lat`, every possible result of the unrepaired
     `get_critical_path` has a total ≤ the longest latency-weighted dependency chain.  Together with
     `cp_underreports` (strictly smaller on the witness): the defect is one-sided. -/
 theorem cp_never_overreports (isa : Isa) (fd : Bool) (par : Params) (k : List Ins) (hk : WFKernel k)
@@ -447,5 +456,113 @@ example :
     witness ≠ [] ∧ ForwardEdges es ∧ (Chain.mk 1 [⟨1, 2, 3⟩]).Valid (infosOf witness) (wedgesOf es) ∧
     (Chain.mk 1 [⟨1, 2, 3⟩]).len (infosOf witness) = cpTotal witness es ∧
     (witness.map (·.lat)) = [7, 0] := by decide +kernel
+
+/-! ### the marking of the repaired code (`Model/CpMark.lean`): `cpPath` — the marked lines, found by
+    walking the predecessor pointers of the table back from the first line with the largest
+    `chain_length`; `cpMarks` — their `latency_cp` values.  `UniquePairs es`: each (source, target)
+    pair occurs once in `es`, as in a networkx graph (decidable; `dedupLast_nodup` for `create`). -/
+
+/-- **`cp_lines_form_chain`, graph-generic**: consecutive marked lines are linked by an edge of the
+    graph between their instruction nodes (no hypothesis at all); over a forward graph they are
+    strictly ascending; all of them are lines of the kernel. -/
+theorem cp_lines_form_chain_graph (k : List Ins) (es : List Edge) :
+    isPath es ((cpPath k es).map instrNode) = true ∧
+    (ForwardEdges es → (cpPath k es).Pairwise (· < ·)) ∧
+    (∀ l ∈ cpPath k es, l ∈ k.map (·.line)) ∧
+    (cpMarks k es).map (·.1) = cpPath k es :=
+  ⟨cpPath_isPath k es, cpPath_sorted k es, cpPath_lines k es, cpMarks_lines k es⟩
+
+/-- **`cp_lines_form_chain`**: on OSACA's dependency graph of a kernel with increasing lines, the
+    lines the repaired `get_critical_path` marks are lines of the kernel, strictly ascending, and each
+    is linked to the next by a dependency edge — they form a dependency chain. -/
+theorem cp_lines_form_chain (isa : Isa) (fd : Bool) (par : Params) (k : List Ins) (hk : WFKernel k) :
+    isPath (create isa fd par k) ((cpPath k (create isa fd par k)).map instrNode) = true ∧
+    (cpPath k (create isa fd par k)).Pairwise (· < ·) ∧
+    (∀ l ∈ cpPath k (create isa fd par k), l ∈ k.map (·.line)) ∧
+    (cpMarks k (create isa fd par k)).map (·.1) = cpPath k (create isa fd par k) :=
+  ⟨cpPath_isPath k _, cpPath_sorted k _ (forwardEdges_create isa fd par k hk), cpPath_lines k _,
+    cpMarks_lines k _⟩
+
+/-- **`cp_lines_sum`, graph-generic**: for every kernel with increasing lines and every edge list with
+    unique (source, target) pairs, the per-line CP latencies of the marked lines add up to the
+    reported total (the walk back reaches the start of the chain within the fuel). -/
+theorem cp_lines_sum_graph (k : List Ins) (hk : WFKernel k) (es : List Edge) (hu : UniquePairs es) :
+    ((cpMarks k es).map (·.2)).sum = cpTotal k es :=
+  cpMarks_sum k es (nodup_of_sorted _ hk) hu
+
+theorem uniquePairs_create (isa : Isa) (fd : Bool) (par : Params) (k : List Ins) :
+    UniquePairs (create isa fd par k) := dedupLast_nodup _
+
+/-- **`cp_lines_sum`**: on OSACA's dependency graph, for every kernel with increasing lines, the
+    `latency_cp` values the repaired `get_critical_path` writes to the marked lines add up to the
+    critical-path total (what `Summary.CriticalPath` sums). -/
+theorem cp_lines_sum (isa : Isa) (fd : Bool) (par : Params) (k : List Ins) (hk : WFKernel k) :
+    ((cpMarks k (create isa fd par k)).map (·.2)).sum = cpTotal k (create isa fd par k) :=
+  cp_lines_sum_graph k hk _ (uniquePairs_create isa fd par k)
+
+/-- **the marked lines are a longest chain** (`cp_marked_chain_is_longest`): the dependency chain
+    through the marked lines is a genuine chain of the property, its length — `lat` for a single
+    line, `loadStage i₁ + Σ w + lat iₙ` otherwise — is the sum of the per-line CP latencies, equals
+    the reported total, and no genuine chain is longer. -/
+theorem cp_marked_chain_is_longest (isa : Isa) (fd : Bool) (par : Params) (k : List Ins) (hk : WFKernel k)
+    (hkn : LoadsKnown k) (hst : NonnegStages k) (hlat : NonnegLats k) (hpar : NonnegParams par)
+    (hne : k ≠ []) :
+    (chainOf (create isa fd par k) ((cpPath k (create isa fd par k)).map instrNode)).Valid (infosOf k)
+      (wedgesOf (create isa fd par k)) ∧
+    (chainOf (create isa fd par k) ((cpPath k (create isa fd par k)).map instrNode)).len (infosOf k) =
+      cpTotal k (create isa fd par k) ∧
+    (∀ c : Chain, c.Valid (infosOf k) (wedgesOf (create isa fd par k)) →
+      c.len (infosOf k) ≤
+        (chainOf (create isa fd par k) ((cpPath k (create isa fd par k)).map instrNode)).len (infosOf k)) := by
+  have hfw := forwardEdges_create isa fd par k hk
+  have hnd : (k.map (·.line)).Nodup := nodup_of_sorted _ hk
+  have hpne : cpPath k (create isa fd par k) ≠ [] := cpPath_ne_nil k _ hne
+  have hlen : (chainOf (create isa fd par k) ((cpPath k (create isa fd par k)).map instrNode)).len
+      (infosOf k) = cpTotal k (create isa fd par k) := by
+    rw [← marksOf_sum_eq_len k _ hnd (create_loadStagesAgree isa fd par k hk hkn) _ hpne
+      (cpPath_lines k _), ← cpMarks_eq]
+    exact cp_lines_sum isa fd par k hk
+  refine ⟨?_, hlen, ?_⟩
+  · apply chainOf_valid k _ hfw _ (by simpa using hpne) (cpPath_isPath k _)
+    intro n hn
+    obtain ⟨l, hl, rfl⟩ := List.mem_map.mp hn
+    exact cpPath_lines k _ l hl
+  · intro c hv
+    rw [hlen]
+    exact cp_ge_every_chain isa fd par k hk hkn hst hlat hpar c hv
+
+/-- a kernel with ties and a zero-latency line: the chains 1 → 3 and 2 → 3 both have length 4 + 3, and
+    1 → 3 → 4 has the same length (line 4 has latency 0) -/
+def tieKernel : List Ins :=
+  [ mkIns 1 [] [r "xmm0"] [] 4 none false,
+    mkIns 2 [] [r "xmm1"] [] 4 none false,
+    mkIns 3 [r "xmm0", r "xmm1"] [r "xmm2"] [] 3 none false,
+    mkIns 4 [r "xmm2"] [r "xmm3"] [] 0 none false ]
+
+/-- the witness with a store of latency 1: the longest chain starts at the load stage of line 1 -/
+def loadChain : List Ins :=
+  [ mkIns 1 [.mem ⟨some ⟨[], Text.ofString "rax", false, false⟩, none, 1, none, false, false, [1]⟩, r "xmm1"]
+      [r "xmm0"] [] 7 (some 3) true,
+    mkIns 2 [r "xmm0"] [.mem ⟨some ⟨[], Text.ofString "rax", false, false⟩, none, 1, none, false, false, [1]⟩] [] 1 (some 1) false ]
+
+-- non-vacuity.  A chain starting at a load: line 1 gets load stage 4 + edge 3, line 2 its latency 1.
+example : WFKernel loadChain ∧ LoadsKnown loadChain ∧ NonnegStages loadChain ∧ NonnegLats loadChain ∧
+    UniquePairs (create .x86 false {} loadChain) ∧
+    cpPath loadChain (create .x86 false {} loadChain) = [1, 2] ∧
+    cpMarks loadChain (create .x86 false {} loadChain) = [(1, 7), (2, 1)] ∧
+    cpTotal loadChain (create .x86 false {} loadChain) = 8 := by decide +kernel
+-- On the old witness the multiply alone (7) ties with the chain 1 → 2 (4 + 3 + 0): as Python's `max`, the
+-- first maximal line wins and the path is the single line 1.
+example : cpPath witness (create .x86 false {} witness) = [1] ∧
+    cpMarks witness (create .x86 false {} witness) = [(1, 7)] ∧
+    cpTotal witness (create .x86 false {} witness) = 7 := by decide +kernel
+-- Ties between predecessors (first maximal candidate: line 1, not 2) and between end lines (3, not 4).
+example : WFKernel tieKernel ∧ LoadsKnown tieKernel ∧ NonnegStages tieKernel ∧ NonnegLats tieKernel ∧
+    cpPath tieKernel (create .x86 false {} tieKernel) = [1, 3] ∧
+    cpMarks tieKernel (create .x86 false {} tieKernel) = [(1, 4), (3, 3)] ∧
+    cpTotal tieKernel (create .x86 false {} tieKernel) = 7 := by decide +kernel
+-- No dependencies: the single slowest instruction; the empty kernel: nothing marked, total 0.
+example : cpMarks negLat [] = [(2, 5)] ∧ cpTotal negLat [] = 5 ∧ cpMarks [] [] = [] ∧
+    cpTotal [] [] = 0 := by decide +kernel
 
 end OsacaVerif.Props.C04
